@@ -82,6 +82,7 @@ impl Watcher for RecommendedWatcher {
         }
         zx_rt::log(&format!("watch w{} {}", self.id, path.display()));
         self.watched.push(path.to_path_buf());
+        zx_rt::rt().watched.push((self.id, path.to_path_buf()));
         Ok(())
     }
 }
